@@ -12,9 +12,9 @@ import (
 
 	"github.com/dappledger/AnnChain/gemmill/consensus/pbft"
 	crypto "github.com/dappledger/AnnChain/gemmill/go-crypto"
-	"github.com/dappledger/AnnChain/gemmill/modules/go-merkle"
 	"github.com/dappledger/AnnChain/gemmill/go-wire"
 	gcmn "github.com/dappledger/AnnChain/gemmill/modules/go-common"
+	"github.com/dappledger/AnnChain/gemmill/modules/go-merkle"
 	"github.com/dappledger/AnnChain/gemmill/types"
 
 	"verifharness/csim"
